@@ -192,8 +192,78 @@ func siteSig(id int) string {
 	return strings.ReplaceAll(s, " ", "_")
 }
 
+// c12FirstUse: several tasks touch the package-level default cache for the
+// first time concurrently (GetDefaultCache, Refresh, GetErrors, InjectDevices,
+// Configure).  All must end up with one and the same cache, without a data
+// race, deadlock or panic.
+func c12FirstUse(r *core.Run) {
+	src := r.Src
+	e := newEnv(r, sched.Config{SwitchDen: 1, AccessDen: []int{0, 8, 32}[src.Intn(3)]}, memfs.Cred{})
+	e.w.RaceOn()
+	e.admin.MkdirAll("/etc/cdi", 0o755)
+	e.admin.WriteFile("/etc/cdi/static.json", gen.Encode(c12Spec("S", "d0"), true), 0o644)
+	n := 2 + src.Intn(3)
+	got := make([]*cdi.Cache, n)
+	var tasks []*sched.Task
+	var kinds []string
+	for i := 0; i < n; i++ {
+		i := i
+		k := src.Intn(5)
+		kinds = append(kinds, []string{"GetDefaultCache", "Refresh", "GetErrors", "InjectDevices", "Configure"}[k])
+		tasks = append(tasks, e.w.Spawn(e.app, fmt.Sprintf("first%d", i), func() {
+			switch k {
+			case 1:
+				_ = cdi.Refresh()
+			case 2:
+				_ = cdi.GetErrors()
+			case 3:
+				_, _ = cdi.InjectDevices(&oci.Spec{}, c12Name("d0"))
+			case 4:
+				_ = cdi.Configure(cdi.WithAutoRefresh(false))
+			}
+			got[i] = cdi.GetDefaultCache()
+		}))
+	}
+	r.Notef("first use of the default cache by %d tasks: %v", n, kinds)
+	e.w.Run(func() bool {
+		for _, t := range tasks {
+			if !t.Done {
+				return false
+			}
+		}
+		return len(e.w.Races) > 0
+	})
+	if len(e.w.Races) > 0 {
+		rc := e.w.Races[0]
+		a, b := siteSig(rc.PrevSite), siteSig(rc.CurSite)
+		if a > b {
+			a, b = b, a
+		}
+		r.Failf("race", a+"~"+b, "data race at first use of the default cache: %s %s at %s is not ordered after the %s by %s at %s",
+			rc.CurTask, rw(rc.CurWrite), simrt.Site(rc.CurSite), rw(rc.PrevWrite), rc.PrevTask, simrt.Site(rc.PrevSite))
+	}
+	r.CheckHealth("first use of the default cache")
+	for _, t := range tasks {
+		e.w.Join(t)
+		if !t.Done {
+			r.Failf("hang", t.PendingKind(), "task %s cannot finish: blocked on %s", t.Name, t.PendingKind())
+		}
+	}
+	for i := 1; i < n; i++ {
+		if got[i] != got[0] || got[i] == nil {
+			r.Failf("default-cache", "two-instances", "GetDefaultCache() returned different caches to tasks that touched it concurrently for the first time (%p vs %p)", got[0], got[i])
+		}
+	}
+	e.w.Quiesce()
+	r.State(fmt.Sprintf("firstuse|%v", kinds))
+}
+
 func c12(r *core.Run) {
 	src := r.Src
+	if src.Bool(1, 10) {
+		c12FirstUse(r)
+		return
+	}
 	drawMapOrder(r)
 	auto := src.Bool(1, 2)
 	useDefault := src.Bool(1, 4)
